@@ -17,11 +17,18 @@ Three kinds of workload, all run against the real classes:
 from __future__ import annotations
 
 import copy
+import pickle
 import random
 
 from hsverif.core import Family, Result, ddmin
 
 PID = "C18"
+
+
+def _clone(obj):
+    """Independent copy of a library object (same effect as copy.deepcopy, several times cheaper)."""
+    return pickle.loads(pickle.dumps(obj, pickle.HIGHEST_PROTOCOL))
+
 LEVEL = "exploration"
 RULE = (
     "clocks: generated histories of 4-60 local/send/receive events among 2-5 nodes; per node a NodeClock with "
@@ -261,7 +268,7 @@ def run_clocks(case: dict) -> Result:
         hops.append(h)
         last_on_node[i] = idx
         ev.append(
-            {"node": i, "kind": kind, "msg": e.get("m"), "L": L, "V": copy.deepcopy(vec[i]), "Vs": vec[i].snapshot(), "H": H, "t": e["t"], "phys": phys}
+            {"node": i, "kind": kind, "msg": e.get("m"), "L": L, "V": _clone(vec[i]), "Vs": vec[i].snapshot(), "H": H, "t": e["t"], "phys": phys}
         )
 
     res.count("events_monitored", len(ev))
@@ -352,6 +359,40 @@ def _ev_json(e: dict, nodes) -> dict:
     }
 
 
+_KNOWN_KEYS: set | None = None
+
+
+_LAST: dict = {}
+
+
+def _memo(run):
+    """The worker runs a case, then asks for a shrink, then re-runs what the shrinker returned: when that is the very
+    same case object, reuse the result instead of executing it three times."""
+
+    def wrapped(case: dict) -> Result:
+        hit = _LAST.get(run.__name__)
+        if hit is not None and hit[0] is case:
+            return hit[1]
+        res = run(case)
+        _LAST[run.__name__] = (case, res)
+        return res
+
+    wrapped.__name__ = run.__name__
+    return wrapped
+
+
+def _already_known(case: dict, run) -> bool:
+    """True when the first violation of the case has the mechanism key of a listed known finding: such cases are not
+    shrunk (the finding carries its own pinned witness; shrinking a thousand re-observations only costs time)."""
+    global _KNOWN_KEYS
+    if _KNOWN_KEYS is None:
+        from hsverif import findings as kf
+
+        _KNOWN_KEYS = {kf.key_of(e) for e in kf.for_property(PID) if e.get("status") == "known"}
+    vs = _memo(run)(case).violations
+    return bool(vs) and vs[0].key() in _KNOWN_KEYS
+
+
 def shrink_clocks(case: dict, still_fails) -> dict:
     def fails(evs):
         return still_fails({**case, "events": evs})
@@ -379,7 +420,7 @@ def gen_crdt(kind: str):
         mode = rng.choice(["direct", "dict", "mixed", "mixed"])
         universe_kind = rng.choice(["str", "str", "int", "mixed", "twins"]) if kind == "orset" else None
         universe = _UNIVERSES[universe_kind] if universe_kind else []
-        p_merge = rng.choice([0.25, 0.4, 0.55])
+        p_merge = rng.choice([0.3, 0.45, 0.6])
         ops: list[dict] = []
         used_ts: set[tuple] = set()
         snaps: list[int] = []
@@ -387,6 +428,8 @@ def gen_crdt(kind: str):
         uid = 0
         ts_style = rng.choice(["tight", "tight", "wide", "monotone"])
         mono = [0] * nrep
+        have: list[set] = [set() for _ in range(nrep)]
+        snap_have: dict[int, set] = {}
 
         def via():
             if mode == "direct":
@@ -419,23 +462,36 @@ def gen_crdt(kind: str):
                     used_ts.add((p, l, r))
                     ops.append({"op": "set", "r": r, "v": rng.choice([f"w{uid}", uid, None if rng.random() < 0.1 else f"v{uid}"]), "ts": [p, l], "u": uid})
                 else:
-                    e = rng.choice(universe)
-                    ops.append({"op": "add" if rng.random() < 0.55 else "rem", "r": r, "e": e, "u": uid})
+                    if rng.random() < 0.45 and have[r]:
+                        # remove something this replica has seen an add of (generator-side approximation)
+                        e = rng.choice(sorted(have[r], key=_elem_key))
+                        ops.append({"op": "rem", "r": r, "e": e, "u": uid})
+                    elif rng.random() < 0.1:
+                        ops.append({"op": "rem", "r": r, "e": rng.choice(universe), "u": uid})
+                    else:
+                        e = rng.choice(universe)
+                        have[r].add(e)
+                        ops.append({"op": "add", "r": r, "e": e, "u": uid})
             else:
                 x = rng.random()
                 if x < 0.45 or nrep < 2:
                     src = rng.choice([j for j in range(nrep) if j != r])
                     ops.append({"op": "merge", "dst": r, "src": src, "via": via()})
+                    have[r] |= have[src]
                 elif x < 0.62:
                     ops.append({"op": "snap", "src": r, "sid": next_sid, "via": via()})
                     snaps.append(next_sid)
+                    snap_have[next_sid] = set(have[r])
                     next_sid += 1
                 elif x < 0.82 and snaps:
-                    ops.append({"op": "deliver", "dst": r, "sid": rng.choice(snaps)})
+                    sid = rng.choice(snaps)
+                    ops.append({"op": "deliver", "dst": r, "sid": sid})
+                    have[r] |= snap_have[sid]
                 elif x < 0.9 and len(snaps) >= 2:
                     a, b = rng.sample(snaps, 2)
                     ops.append({"op": "group", "sids": [a, b], "sid": next_sid})
                     snaps.append(next_sid)
+                    snap_have[next_sid] = snap_have[a] | snap_have[b]
                     next_sid += 1
                 elif x < 0.96 and mode != "direct":
                     ops.append({"op": "reload", "r": r})
@@ -539,7 +595,7 @@ def _exec_crdt(case: dict, force_direct: bool):
     def rt(obj, what):
         """from_dict(to_dict(obj)), compared with obj."""
         stats["dict_roundtrips"] += 1
-        out = cls.from_dict(copy.deepcopy(obj.to_dict()))
+        out = cls.from_dict(_clone(obj.to_dict()))
         if not same(out, obj) or out.node_id != obj.node_id:
             found("roundtrip-changes-state", _rt_shape(kind, obj), ("rt", what), f"op #{cur['idx']}: from_dict(to_dict({what})) has value {show(val(out))}, node_id {out.node_id!r}; the original has {show(val(obj))}, {obj.node_id!r}")
         return out
@@ -567,6 +623,19 @@ def _exec_crdt(case: dict, force_direct: bool):
             found("value-vs-spec", "after-merge" if remote else "local-ops-only", (tag,), f"{where} after op #{idx}: value {got}, increments - decrements received = {want}")
         return False
 
+    def eq_shape(Kset):
+        """Structural precondition of 'same value, unequal state' taken from the history."""
+        if kind != "orset":
+            return "equal-values-unequal-states"
+        ups = [spec.updates[u] for u in Kset]
+        killed = set()
+        for u in ups:
+            if u["op"] == "rem":
+                killed |= u["observed"]
+        dead = {_elem_key(u["e"]) for u in ups if u["op"] == "add" and u["u"] in killed}
+        live = {_elem_key(u["e"]) for u in ups if u["op"] == "add" and u["u"] not in killed}
+        return "element-with-removed-add-and-live-add" if dead & live else "equal-values-unequal-states"
+
     def check_all():
         idx = cur["idx"]
         ok = [check_value(r, K[i], f"replica {names[i]}", i) for i, r in enumerate(reps)]
@@ -575,17 +644,17 @@ def _exec_crdt(case: dict, force_direct: bool):
                 if K[i] == K[j]:
                     stats["equality_checks"] += 1
                     if ok[i] and ok[j] and not same(reps[i], reps[j]):
-                        found("same-updates-unequal", "equal-values-unequal-states", (i, j), f"after op #{idx}: {names[i]} and {names[j]} received the same {len(K[i])} updates and show the same value but {names[i]} == {names[j]} is False")
+                        found("same-updates-unequal", eq_shape(K[i]), (i, j), f"after op #{idx}: {names[i]} and {names[j]} received the same {len(K[i])} updates and show the same value but {names[i]} == {names[j]} is False")
 
     def materialise(sid):
         payload, Ks, v, orig = snaps[sid]
         if v == "dict":
             stats["dict_roundtrips"] += 1
-            out = cls.from_dict(copy.deepcopy(payload))
+            out = cls.from_dict(_clone(payload))
             if not same(out, orig) or out.node_id != orig.node_id:
                 found("roundtrip-changes-state", _rt_shape(kind, orig), ("rt", "snap", sid), f"op #{cur['idx']}: from_dict(to_dict(snapshot {sid})) has value {show(val(out))}; the original had {show(val(orig))}")
             return out, Ks
-        return copy.deepcopy(payload), Ks
+        return _clone(payload), Ks
 
     def laws(rs, v):
         idx = cur["idx"]
@@ -595,18 +664,18 @@ def _exec_crdt(case: dict, force_direct: bool):
         na, nb, nc = (names[i] for i in rs)
 
         def cp(x, what):
-            return rt(x, what) if use_rt else copy.deepcopy(x)
+            return rt(x, what) if use_rt else _clone(x)
 
         stats["law_checks"] += 1
         n0 = len(findings)
-        ab = copy.deepcopy(A); ab.merge(cp(B, nb))
-        ba = copy.deepcopy(B); ba.merge(cp(A, na))
-        bc = copy.deepcopy(B); bc.merge(cp(C, nc))
-        l = copy.deepcopy(A); l.merge(cp(bc, "b+c"))
-        r = copy.deepcopy(ab); r.merge(cp(C, nc))
-        aa = copy.deepcopy(A); aa.merge(cp(A, na))
-        sm = copy.deepcopy(A); sm.merge(sm)
-        ab2 = copy.deepcopy(ab); ab2.merge(cp(B, nb)); ab2.merge(cp(ab, "a+b"))
+        ab = _clone(A); ab.merge(cp(B, nb))
+        ba = _clone(B); ba.merge(cp(A, na))
+        bc = _clone(B); bc.merge(cp(C, nc))
+        l = _clone(A); l.merge(cp(bc, "b+c"))
+        r = _clone(ab); r.merge(cp(C, nc))
+        aa = _clone(A); aa.merge(cp(A, na))
+        sm = _clone(A); sm.merge(sm)
+        ab2 = _clone(ab); ab2.merge(cp(B, nb)); ab2.merge(cp(ab, "a+b"))
         oks = [
             check_value(ab, KA | KB, f"merge({na},{nb})", "law-ab"),
             check_value(ba, KA | KB, f"merge({nb},{na})", "law-ba"),
@@ -620,11 +689,11 @@ def _exec_crdt(case: dict, force_direct: bool):
         if all(oks) and len(findings) == n0:
             # values are right everywhere: the laws can now only fail on state equality
             if not same(ab, ba):
-                found("merge-not-commutative", "equal-values-unequal-states", ("comm",), f"op #{idx}: merge({na},{nb}) == merge({nb},{na}) is False although both show {show(val(ab))}")
+                found("merge-not-commutative", eq_shape(KA | KB), ("comm",), f"op #{idx}: merge({na},{nb}) == merge({nb},{na}) is False although both show {show(val(ab))}")
             if not same(l, r):
-                found("merge-not-associative", "equal-values-unequal-states", ("assoc",), f"op #{idx}: a+(b+c) == (a+b)+c is False although both show {show(val(l))}")
+                found("merge-not-associative", eq_shape(KA | KB | KC), ("assoc",), f"op #{idx}: a+(b+c) == (a+b)+c is False although both show {show(val(l))}")
             if not same(aa, A) or not same(sm, A) or not same(ab2, ab):
-                found("merge-not-idempotent", "equal-values-unequal-states", ("idem",), f"op #{idx}: merge(a,a)==a:{same(aa, A)} a.merge(a)==a:{same(sm, A)} merge(a+b,b)==a+b:{same(ab2, ab)}")
+                found("merge-not-idempotent", eq_shape(KA | KB), ("idem",), f"op #{idx}: merge(a,a)==a:{same(aa, A)} a.merge(a)==a:{same(sm, A)} merge(a+b,b)==a+b:{same(ab2, ab)}")
 
     for idx, op in enumerate(case["ops"]):
         cur["idx"] = idx
@@ -662,9 +731,9 @@ def _exec_crdt(case: dict, force_direct: bool):
             s_ = op["src"]
             if op["via"] == "dict" and not force_direct:
                 serialised = True
-                snaps[op["sid"]] = (copy.deepcopy(reps[s_].to_dict()), set(K[s_]), "dict", copy.deepcopy(reps[s_]))
+                snaps[op["sid"]] = (_clone(reps[s_].to_dict()), set(K[s_]), "dict", _clone(reps[s_]))
             else:
-                snaps[op["sid"]] = (copy.deepcopy(reps[s_]), set(K[s_]), "direct", None)
+                snaps[op["sid"]] = (_clone(reps[s_]), set(K[s_]), "direct", None)
         elif o == "deliver":
             if op["sid"] not in snaps:
                 continue
@@ -681,7 +750,7 @@ def _exec_crdt(case: dict, force_direct: bool):
             stats["merges"] += 1
             v = "dict" if "dict" in (snaps[op["sids"][0]][2], snaps[op["sids"][1]][2]) else "direct"
             if v == "dict":
-                snaps[op["sid"]] = (copy.deepcopy(x.to_dict()), Kx | Ky, "dict", copy.deepcopy(x))
+                snaps[op["sid"]] = (_clone(x.to_dict()), Kx | Ky, "dict", _clone(x))
             else:
                 snaps[op["sid"]] = (x, Kx | Ky, "direct", None)
             check_value(x, Kx | Ky, "grouped snapshot", "group")
@@ -772,6 +841,8 @@ def run_crdt(case: dict) -> Result:
 
 
 def shrink_crdt(case: dict, still_fails) -> dict:
+    if _already_known(case, run_crdt):
+        return case
     def fails(ops):
         return still_fails({**case, "ops": ops})
 
@@ -936,7 +1007,45 @@ def run_store(case: dict) -> Result:
         evs.append(Event(time=Instant.from_seconds(case["first_tick"][i]), event_type="GossipTick", target=s, daemon=False))
     sim.schedule(evs)
 
+    rt_during: dict[str, tuple] = {}
+    sends: dict[int, tuple] = {}  # id(state payload) -> (payload kept alive, send time ns)
+    exchanges: list[tuple] = []  # (src, dst, sent_ns, delivered_ns)
+    digests: dict[str, str] = {}
+    last_change: dict[str, int] = {}
+    store_set = {id(s) for s in stores}
+
+    def digest(s):
+        return repr([(k, c.to_dict(), repr(c.value)) for k, c in sorted(s.crdts.items())])
+
+    def note_state(s, now_ns):
+        d = digest(s)
+        if digests.get(s.name) != d:
+            digests[s.name] = d
+            last_change[s.name] = now_ns
+
     def on_event(ev_):
+        now_ns = ev_.time.nanoseconds
+        if ev_.event_type in ("GossipPush", "GossipResponse"):
+            md = ev_.context.get("metadata", {})
+            st = md.get("state")
+            if ev_.target is net:
+                sends.setdefault(id(st), (st, now_ns))
+            elif id(ev_.target) in store_set:
+                sent = sends.get(id(st))
+                exchanges.append((md.get("source"), ev_.target.name, sent[1] if sent else None, now_ns))
+        if id(ev_.target) in store_set:
+            note_state(ev_.target, now_ns)
+        elif ev_.event_type == "HarnessLWWSet":
+            for s in stores:
+                note_state(s, now_ns)
+        if ev_.event_type == "Write" and ev_.target in stores:
+            k_ = ev_.context.get("metadata", {}).get("key")
+            c_ = ev_.target.crdts.get(k_)
+            if c_ is not None and k_ not in rt_during:
+                back_ = type(c_).from_dict(copy.deepcopy(c_.to_dict()))
+                res.count("dict_roundtrips")
+                if not ((back_ == c_) and (c_ == back_) and back_.value == c_.value):
+                    rt_during[k_] = (_rt_shape(kind, c_), f"{ev_.target.name}[{k_}] right after a local write: from_dict(to_dict(x)) shows {sorted(_elem_key(x) for x in back_.value) if isinstance(back_.value, frozenset) else back_.value!r}, x shows {sorted(_elem_key(x) for x in c_.value) if isinstance(c_.value, frozenset) else c_.value!r}")
         for s in stores:
             for k, c in s.crdts.items():
                 if c.node_id != s.name and (s.name, k) not in foreign:
@@ -963,24 +1072,34 @@ def run_store(case: dict) -> Result:
             return (c.value, None if ts is None else (ts.physical_ns, ts.logical, ts.node_id))
         return c.value
 
-    # ---- quiescence: would any peer-to-peer merge still change something?
-    fixpoint = True
+    # ---- quiescence, measured from the run itself: after the last state change anywhere (T_c) the stores kept
+    # gossiping; an exchange i->j counts when the message was *sent* after T_c (so it carried i's final state) and was
+    # delivered (j merged it, without effect).  If these exchanges strongly connect all stores, more gossip of the same
+    # kind can never change anything: that is the fixpoint at which replicas must be equal.
+    t_c = max(last_change.values(), default=0)
+    edges = {(a_, b_) for (a_, b_, sent, _deliv) in exchanges if sent is not None and sent > t_c}
+    res.count("gossip_messages_delivered", len(exchanges))
+
+    def reach(start, fwd):
+        seen_, todo = {start}, [start]
+        while todo:
+            x = todo.pop()
+            for (a_, b_) in edges:
+                y = None
+                if fwd and a_ == x:
+                    y = b_
+                if not fwd and b_ == x:
+                    y = a_
+                if y is not None and y not in seen_:
+                    seen_.add(y)
+                    todo.append(y)
+        return seen_
+
     all_keys = sorted({k for s in stores for k in s.crdts})
-    for i in range(n):
-        ci = stores[i].crdts
-        for j in peers[i]:
-            cj = stores[j].crdts
-            for k in all_keys:
-                if k in cj and k not in ci:
-                    fixpoint = False
-                elif k in cj:
-                    probe_copy = copy.deepcopy(ci[k])
-                    probe_copy.merge(type(probe_copy).from_dict(copy.deepcopy(cj[k].to_dict())))
-                    if not (probe_copy == ci[k]) or val(probe_copy) != val(ci[k]):
-                        fixpoint = False
+    fixpoint = reach(names[0], True) == set(names) and reach(names[0], False) == set(names)
     merged_everywhere = all(s.stats.keys_merged > 0 for s in stores)
     if not fixpoint:
-        res.inconclusive = "gossip had not reached a fixpoint at the end of the run"
+        res.inconclusive = "no strongly connected round of gossip after the last state change"
         res.count("store_not_quiescent")
         return res
     res.count("store_fixpoints")
@@ -1049,17 +1168,16 @@ def run_store(case: dict) -> Result:
         if spec_bad is None and unequal is None:
             continue
         # (2) structural precondition of the deviation, most direct observation first
-        rt_bad = None
+        rt_bad = rt_during.get(k)
         for i, c in enumerate(crdts):
-            if c is not None:
+            if c is not None and rt_bad is None:
                 back = type(c).from_dict(copy.deepcopy(c.to_dict()))
                 if not same(back, c):
-                    rt_bad = (c, f"{names[i]}[{k}]: from_dict(to_dict(x)) shows {show(val(back))}, x shows {show(val(c))}")
-                    break
+                    rt_bad = (_rt_shape(kind, c), f"{names[i]}[{k}]: from_dict(to_dict(x)) shows {show(val(back))}, x shows {show(val(c))}")
         adopted_at = {nm: t for (nm, kk), (_nid, t) in foreign.items() if kk == k}
         wrote_on_adopted = any(w["key"] == k and names[w["node"]] in adopted_at and w["t"] >= adopted_at[names[w["node"]]] for w in case["writes"])
         if rt_bad is not None:
-            res.add("roundtrip-changes-state", cls.__name__, _rt_shape(kind, rt_bad[0]), rt_bad[1] + "; consequence at quiescence: " + (spec_bad[1] if spec_bad else unequal), witness)
+            res.add("roundtrip-changes-state", cls.__name__, rt_bad[0], rt_bad[1] + "; consequence at quiescence: " + (spec_bad[1] if spec_bad else unequal), witness)
         elif spec_bad is not None and spec_bad[0] == "removed-present":
             res.add("value-vs-spec", cls.__name__, "removed-element-present", spec_bad[1], witness)
         elif wrote_on_adopted and kind != "lww":
@@ -1081,6 +1199,8 @@ def run_store(case: dict) -> Result:
 
 
 def shrink_store(case: dict, still_fails) -> dict:
+    if _already_known(case, run_store):
+        return case
     def fails(ws):
         return still_fails({**case, "writes": ws})
 
@@ -1091,14 +1211,18 @@ def shrink_store(case: dict, still_fails) -> dict:
 
 FAMILIES = {
     "clocks": Family("clocks", gen_clocks, run_clocks, shrink=shrink_clocks),
-    "gcounter": Family("gcounter", gen_crdt("gcounter"), run_crdt, shrink=shrink_crdt),
-    "pncounter": Family("pncounter", gen_crdt("pncounter"), run_crdt, shrink=shrink_crdt),
-    "lww": Family("lww", gen_crdt("lww"), run_crdt, shrink=shrink_crdt),
-    "orset": Family("orset", gen_crdt("orset"), run_crdt, shrink=shrink_crdt),
-    "store": Family("store", gen_store, run_store, shrink=shrink_store),
+    "gcounter": Family("gcounter", gen_crdt("gcounter"), _memo(run_crdt), shrink=shrink_crdt),
+    "pncounter": Family("pncounter", gen_crdt("pncounter"), _memo(run_crdt), shrink=shrink_crdt),
+    "lww": Family("lww", gen_crdt("lww"), _memo(run_crdt), shrink=shrink_crdt),
+    "orset": Family("orset", gen_crdt("orset"), _memo(run_crdt), shrink=shrink_crdt),
+    "store": Family("store", gen_store, _memo(run_store), shrink=shrink_store),
 }
+
+# shards sized so that interpreter start-up (importing the library, ~2 s) does not dominate
+for _name, _size in {"clocks": 650, "gcounter": 1000, "pncounter": 1000, "lww": 1200, "orset": 900, "store": 150}.items():
+    FAMILIES[_name].shard_size = _size
 
 BUDGET = {
     "quick": {"clocks": 5000, "gcounter": 1000, "pncounter": 1000, "lww": 1200, "orset": 1800, "store": 600},
-    "thorough": {"clocks": 300000, "gcounter": 60000, "pncounter": 60000, "lww": 80000, "orset": 100000, "store": 20000},
+    "thorough": {"clocks": 300000, "gcounter": 60000, "pncounter": 60000, "lww": 80000, "orset": 120000, "store": 30000},
 }
